@@ -481,9 +481,9 @@ class MolGraph:
         elif copy is False:
             new_graph = self
 
-        new_graph._atom_attrs = atom_attrs
-        new_graph._neighbors = neighbors
-        new_graph._bond_attrs = bond_attrs
+        new_graph._atom_attrs = defaultdict(dict, atom_attrs)
+        new_graph._neighbors = defaultdict(set, neighbors)
+        new_graph._bond_attrs = defaultdict(dict, bond_attrs)
         return new_graph
 
     def node_connected_component(self, atom: int) -> set[AtomId]:
